@@ -36,6 +36,10 @@ type Ctx struct {
 	decls   map[string]*ast.FuncDecl // "Recv.name" or "name"
 	declObj map[*ast.FuncDecl]*types.Func
 	fileOf  map[*ast.FuncDecl]*ast.File
+
+	// Inlined: the helpers (absent from the pinned tree) that were written back into their callers before the analysis
+	Inlined    []string
+	InlineNote string
 }
 
 func cleanEnv(extra ...string) []string {
@@ -60,9 +64,41 @@ type loadOpts struct {
 	tags         string
 	overlay      map[string][]byte
 	needSSA      bool
+	noInline     bool
 }
 
+// load loads the tree and, when it declares functions the pinned tree does not have, loads it a second time with
+// those helpers written back into their callers (inline.go).
 func load(repo string, o loadOpts) (*Ctx, error) {
+	c, err := loadOnce(repo, o)
+	if err != nil || o.noInline {
+		return c, err
+	}
+	for round := 0; round < 3; round++ {
+		overlay, names := inlineNewHelpers(c)
+		if overlay == nil {
+			break
+		}
+		o2 := o
+		o2.overlay = map[string][]byte{}
+		for k, v := range o.overlay {
+			o2.overlay[k] = v
+		}
+		for k, v := range overlay {
+			o2.overlay[k] = v
+		}
+		c2, err2 := loadOnce(repo, o2)
+		if err2 != nil {
+			c.InlineNote = fmt.Sprintf("new helpers %v could not be written back into their callers (%v): the tree is analysed as it stands", names, err2)
+			break
+		}
+		c2.Inlined = append(append([]string{}, c.Inlined...), names...)
+		c, o = c2, o2
+	}
+	return c, nil
+}
+
+func loadOnce(repo string, o loadOpts) (*Ctx, error) {
 	var extra []string
 	desc := "GOOS=linux GOARCH=amd64"
 	if o.goos != "" {
